@@ -24,6 +24,9 @@ type Part struct {
 	Shards   int      `json:"shards"`
 	Tiers    []string `json:"tiers"`    // empty = both
 	Deadline map[string]int `json:"deadline"` // per tier seconds (internal deadline, exits 0 non-exhaustive)
+	// Supplementary parts (e.g. a free-running -race pass) can add violations but never count towards coverage
+	// or the exhaustive flag: their silence proves nothing
+	Supplementary bool `json:"supplementary"`
 }
 
 type Check struct {
@@ -209,6 +212,7 @@ func main() {
 	// merge
 	tot := Result{Exhaustive: true, ViolCount: map[string]int64{}, ViolEx: map[string][]Example{}, Extra: map[string]int64{}, Bounds: map[string]string{}}
 	perPart := map[string]map[string]any{}
+	supp := map[string]int64{}
 	var capped []string
 	for _, j := range jobs {
 		b, err := os.ReadFile(j.out)
@@ -220,6 +224,16 @@ func main() {
 		if err := json.Unmarshal(b, &r); err != nil {
 			os.RemoveAll(scratch)
 			die(3, "bad shard result %s: %v", j.out, err)
+		}
+		if j.part.Supplementary {
+			supp[j.part.Name] += r.Evaluations
+			for k, v := range r.ViolCount {
+				tot.ViolCount[k] += v
+			}
+			for k, v := range r.ViolEx {
+				tot.ViolEx[k] = append(tot.ViolEx[k], v...)
+			}
+			continue
 		}
 		tot.Evaluations += r.Evaluations
 		tot.States += r.States
@@ -330,6 +344,9 @@ func main() {
 	}
 	if len(capped) > 0 {
 		cov["capped"] = capped
+	}
+	if len(supp) > 0 {
+		cov["supplementary_runs_not_counted_as_coverage"] = supp
 	}
 	ev := map[string]any{
 		"property_id": id,
